@@ -303,8 +303,11 @@ def cc_script(rng, n_steps):
     out = []
     f = 1 if rng.random() < 0.8 else 2
     ch = rng.randrange(2)
+    seen = set()      # fields that have sent a control code
+    stray = rng.random() < 0.35
     def ctl(c2):
         c1 = 0x14 | (ch << 3)
+        seen.add(f)
         out.append((f, T.par(c1), T.par(c2)))
         if f == 1: out.append((f, T.par(c1), T.par(c2)))
     def pac(row, extra=0):
@@ -316,6 +319,14 @@ def cc_script(rng, n_steps):
         if len(bs) % 2: bs.append(0)
         for i in range(0, len(bs), 2): out.append((f, T.par(bs[i]), T.par(bs[i + 1])))
     for _ in range(n_steps):
+        if stray and (3 - f) not in seen:
+            # printable data of the OTHER field before any mode-setting code of that field (it has no service: discarded),
+            # between the commands of the active field
+            for _ in range(rng.randrange(1, 4)):
+                w = rng.choice(WORDS) + " "
+                bs = [ord(c) & 0x7F for c in w]
+                if len(bs) % 2: bs.append(0)
+                for i in range(0, len(bs), 2): out.append((3 - f, T.par(bs[i]), T.par(bs[i + 1])))
         mode = rng.choice(["ru", "ru", "rud", "pop", "paint", "text"])
         if mode == "rud":
             # depth changes inside roll-up mode (larger and smaller, every order), PACs to every row - mostly rows 1..4,
@@ -459,6 +470,25 @@ def search_ops(rng, net):
 # known (cached at the plain size and converted at fetch time), retransmissions.  Layouts follow what libzvbi's
 # parsers read (packet.c parse_mot / parse_pop / parse_27 / parse_28_29 / parse_btt / parse_ait / parse_mpt[_ex]).
 TERM = (0x3F, 0x1F, 0x7F)
+
+
+def x26_sequence_damage(r, ds):
+    """designation sequence with one packet out of order and more packets after it"""
+    ds = list(ds) or [0]
+    kind = r.choice(["repeat", "repeat", "descend", "seventeenth", "skip", "restart"])
+    if kind == "repeat":
+        i = r.randrange(len(ds))
+        ds = ds[:i + 1] + [ds[i]] + [d for d in range(ds[i] + 1, min(16, ds[i] + 1 + r.randrange(1, 4)))]
+    elif kind == "descend":
+        hi = r.randrange(1, 16)
+        ds = list(range(min(len(ds), hi))) + [hi, r.randrange(hi), min(15, hi + 1)] + [r.randrange(16) for _ in range(r.randrange(0, 3))]
+    elif kind == "seventeenth":
+        ds = list(range(16)) + [r.choice([15, 0, 7])] + ([r.randrange(16)] if r.random() < 0.5 else [])
+    elif kind == "skip":
+        ds = ds + [ds[-1] + 2, ds[-1] + 3] if ds[-1] + 3 <= 15 else ds + [0, 1]
+    else:
+        ds = ds + [0, 1, 2][:r.randrange(1, 4)]
+    return [d & 15 for d in ds]
 
 
 class L25:
@@ -618,8 +648,13 @@ class L25:
             n = (len(trips) + 12) // 13
             ds = list(range(min(n, 16)))
             if r.random() < 0.05 and len(ds) > 1: ds.pop(r.randrange(len(ds)))     # a lost X/26 packet
+            k = r.random()
+            if k < 0.2:
+                # a packet the sequence test of the decoder must reject (repeated designation, an earlier designation after
+                # a later one, a 17th packet), FOLLOWED by further X/26 packets of the same page before the next header
+                ds = x26_sequence_damage(r, ds)
             for d in ds:
-                pk.append(T.x26(m, d, trips[d * 13:(d + 1) * 13]))
+                pk.append(T.x26(m, d, trips[(d % 16) * 13:((d % 16) + 1) * 13]))
         k = r.random()
         if k < 0.3: pk.append(T.x28(m, 28, r.choice([0, 0, 4, 1]), Net.x28_triplets(self, 0, 0)))
         if k < 0.1: pk.append(T.x28(m, 28, r.choice([4, 1]), Net.x28_triplets(self, 0, 0)))
@@ -869,6 +904,9 @@ class TopNet:
         elif self.layout == "random":
             for p in allp: self.types[p] = r.randrange(16)
         self.titles = [p for p in allp if self.types.get(p, 0) in (4, 5, 6, 7) or r.random() < 0.2]
+        # how many titles each AIT page carries (46 fit): a TOP index sub-page shows 17, so more than 18 / 23 / 25 titles in
+        # all make page 900 a multi-page index whose first sub-pages are "not the last"
+        self.ait_fill = {a: r.choice([0, 3, 10, 17, 18, 19, 22, 23, 24, 25, 26, 30, 36, 40, 46, 46]) for a in self.ait}
         self.serial = r.random() < 0.15
 
     def hdr(self, pgno, subcode=0, flags=None):
@@ -917,8 +955,15 @@ class TopNet:
         if len(self.ait) > 1:      # split the titles over the AIT pages
             k = self.ait.index(pgno)
             ts = ts[k::len(self.ait)]
+        want = self.ait_fill.get(pgno, 0)
+        if len(ts) < want:           # further titles for pages all over the number range (distinct, so each one is a row)
+            k = self.ait.index(pgno)
+            pool = [p for p in range(0x100 + k, 0x900, len(self.ait)) if (p & 0xFF) != 0xFF and p not in ts]
+            if r.random() < 0.6: pool = [p for p in pool if (p & 15) <= 9 and (p & 0xF0) <= 0x90]
+            ts += sorted(r.sample(pool, want - len(ts)))
         if r.random() < 0.2: ts += [r.choice(self.lops)]      # duplicate
         if r.random() < 0.2: r.shuffle(ts)
+        ts = ts[:46]
         ent = []
         for p in ts:
             title = r.choice(WORDS) + " " + r.choice(WORDS)
@@ -1012,6 +1057,16 @@ class TopNet:
             else:
                 ops.append("fetch 900 %x %d 25 %d" % (r.choice([0x3F7F, 0, 1, 2, 0x10]), r.randrange(4), r.randrange(2)))
                 if r.random() < 0.5: ops.append(r.choice(["resolve", "export text -1", "render 32 0 0", "export html -1"]))
+        if r.random() < 0.6:
+            # the TOP index at every sub-page: the first ones (not the last), the last, one past the last
+            n = sum(self.ait_fill.values()) + len(self.titles)
+            last = n // 18
+            subs = list(range(0, last + 2))
+            if len(subs) > 4: subs = [0, 1] + r.sample(subs[2:], 2)
+            for sn in subs:
+                bcd = ((sn // 10) << 4) | (sn % 10)
+                ops.append("fetch 900 %x %d %d %d" % (bcd, r.randrange(4), r.choice([25, 25, 24, 1]), r.randrange(2)))
+                if r.random() < 0.4: ops.append(r.choice(["resolve", "export text -1", "render 32 0 0", "print 1 4000", "export png -1"]))
         return ops
 
 
